@@ -19,6 +19,15 @@ class PathLimit(AnalysisError):
     pass
 
 
+import operator as _op
+_CMP = {ast.Lt: _op.lt, ast.LtE: _op.le, ast.Gt: _op.gt, ast.GtE: _op.ge, ast.Eq: _op.eq, ast.NotEq: _op.ne}
+
+
+def _flatten_marks(word):
+    """all marker tokens of a word, deferred ones included (a DEFER token is followed by its tokens)"""
+    return [t for t in word if t[0] == "MARK"]
+
+
 class Walker:
     """Enumerates paths through a statement list.  Tracks: truth of guard atoms (by normalised
     source text), symbolic values of string / bool locals assigned inside the unit, and the word
@@ -560,6 +569,55 @@ def emit_write_graph(repo, tier="quick"):
     else:
         obs.append(ob_ok("EMIT.write_graph", fi, rl, construct="per-ring words over %d paths match SYMring? MARK, symbol iff new marker and needed" % rn, instance="ring-word",
                          reason="ring bond orders are written before the opening marker in both modes", detail={"paths": rn}))
+    # marker form: the bare digit form is used exactly for markers 1..9, the %nn form from 10 on (a bare `10` is read as rings 1 and 0)
+    mnames = set()
+    for sub in ast.walk(rl):
+        if isinstance(sub, ast.Call) and isinstance(sub.func, ast.Name) and sub.func.id == "str" and len(sub.args) == 1 and isinstance(sub.args[0], ast.Name):
+            mnames.add(sub.args[0].id)
+        if isinstance(sub, ast.Call) and isinstance(sub.func, ast.Attribute) and sub.func.attr == "format" and isinstance(sub.func.value, ast.Constant) and \
+                isinstance(sub.func.value.value, str) and sub.func.value.value.startswith("%"):
+            mnames |= {a.id for a in sub.args if isinstance(a, ast.Name)}
+        if isinstance(sub, ast.FormattedValue) and isinstance(sub.value, ast.Name):
+            mnames.add(sub.value.id)
+    form_bad = []
+    form_n = 0
+    for F, NEW, SR in itertools.product((False, True), (False, True), (False, True)):
+        pre = {fmt: F, ast.unparse(NEW_inner): (NEW if new_is_true_arm else not NEW), SR_text: SR}
+        for atoms, word, env in Walker(fi, acc, classify, pre=pre, extra_accs=deferred).run(rl.body):
+            kinds_ = {t[1] for t in _flatten_marks(word)}
+            if not kinds_ or "either" in kinds_:
+                continue
+            allowed = set(range(1, 31))
+            constrained = False
+            for key, val in atoms.items():
+                try:
+                    tnode = ast.parse(key, mode="eval").body
+                except SyntaxError:
+                    continue
+                if isinstance(tnode, ast.Compare) and len(tnode.ops) == 1:
+                    l, r = tnode.left, tnode.comparators[0]
+                    if isinstance(l, ast.Name) and l.id in mnames and isinstance(r, ast.Constant) and isinstance(r.value, int):
+                        fn = _CMP.get(type(tnode.ops[0]))
+                        if fn:
+                            constrained = True
+                            allowed = {m for m in allowed if fn(m, r.value) == val}
+                    elif isinstance(r, ast.Name) and r.id in mnames and isinstance(l, ast.Constant) and isinstance(l.value, int):
+                        fn = _CMP.get(type(tnode.ops[0]))
+                        if fn:
+                            constrained = True
+                            allowed = {m for m in allowed if fn(l.value, m) == val}
+            form_n += 1
+            for k in kinds_:
+                if k == "digit" and (not constrained or any(m >= 10 for m in allowed)):
+                    form_bad.append("the bare digit form is written for markers %s" % ("of any size" if not constrained else sorted(m for m in allowed if m >= 10)[:3]))
+                if k == "percent" and constrained and any(m <= 9 for m in allowed) and False:
+                    pass
+    if form_bad:
+        obs.append(ob_fail("EMIT.marker-order", fi, rl, construct="; ".join(sorted(set(form_bad))[:2]), instance="digit-below-ten",
+                           reason="a marker of two digits written without % is read back as two single-digit ring markers: the graph does not round-trip"))
+    elif form_n:
+        obs.append(ob_ok("EMIT.marker-order", fi, rl, construct="str(marker) only under marker < 10 (%d paths)" % form_n, instance="digit-below-ten",
+                         reason="two-digit markers are never written in the bare digit form"))
     # marker order: a %nn marker is never written where a single-digit marker of the same node can follow it
     (obs.append(ob_fail("EMIT.marker-order", fi, rl, construct="a two-digit marker (%nn) is appended inside the marker loop", instance="percent-last",
                         reason="the CGsmiles reader takes every digit after a % as part of that marker: `%10` directly followed by marker 3 is read as ring 103. "
